@@ -413,5 +413,66 @@ example : Equiv toyC (simplify reuseRules 8 shared).expr shared := by
   have := List.all_eq_true.mp (List.all_eq_true.mp h f hf) q hq
   exact (of_decide_eq_true this : denote toyC.toSem q = denote toyC.toSem f.parent)
 
+/-! ### a rule of the real code that is NOT value-preserving (known finding D47)
+
+  `SortValues._simplify_up[Head]` / `[Tail]` and `SetIndex._simplify_up[Head]` / `[Tail]` replace
+  `Head(SortValues(x), n)` — "the first n rows of the FIRST partition of the sorted frame" — by
+  `NFirst(x, n)` — "the n smallest rows of the whole frame".  Values here are partition lists. -/
+
+abbrev Parts := List (List Nat)
+
+def insertNat (x : Nat) : List Nat → List Nat
+  | [] => [x]
+  | y :: t => if x ≤ y then x :: y :: t else y :: insertNat x t
+
+def isort : List Nat → List Nat
+  | [] => []
+  | x :: t => insertNat x (isort t)
+
+/-- range partitioning of a sorted list into partitions of two rows -/
+def chunk2 : List Nat → Parts
+  | a :: b :: t => [a, b] :: chunk2 t
+  | [] => []
+  | [a] => [[a]]
+
+def partSem : Nat → Nat → List Parts → Parts
+  | 0, _, [] => [[4, 1], [3, 2]]                        -- source: two partitions
+  | 1, _, [p] => chunk2 (isort p.flatten)               -- sort_values
+  | 2, n, [p] => [(p.headD []).take n]                  -- head(n): first partition only
+  | 3, n, [p] => [(isort p.flatten).take n]             -- NFirst(n)
+  | _, _, _ => []
+
+def headSortRules : Rules where
+  down := fun _ => none
+  up := fun c p _ => match c, p with
+    | .node 1 _ [x], .node 2 n [_] => some (.node 3 n [x])
+    | _, _ => none
+  tuneDown := fun _ => none
+  tuneUp := fun _ _ => none
+  lower := fun _ => none
+  fuse := id
+
+/-- `df.sort_values().head(3)` on two partitions of two rows -/
+def sortedHead : Expr := .node 2 3 [.node 1 0 [.node 0 0 []]]
+
+/-- the driver applies the rule faithfully, and the plans compute different results: the hypothesis
+    `RulesSound` of the C01 theorems is necessary, not decorative -/
+example : (simplify headSortRules 6 sortedHead).expr = .node 3 3 [.node 0 0 []] := by decide +kernel
+example : denote (Congruence.ofEq partSem).toSem sortedHead = [[1, 2]] := by decide +kernel
+example : denote (Congruence.ofEq partSem).toSem (simplify headSortRules 6 sortedHead).expr = [[1, 2, 3]] := by
+  decide +kernel
+
 end C01Ex
+
+/-- **Counterexample (known finding D47).**  Replacing "head n of the first partition of the sorted
+    frame" by "the n smallest rows" is not value-preserving: the rule system consisting of that one
+    rewrite is not `RulesSound`, for plain equality of partition lists (row count 2 versus 3). -/
+theorem C01_head_of_sorted_counterexample :
+    ¬ RulesSound (Congruence.ofEq C01Ex.partSem).toSem C01Ex.headSortRules := by
+  intro h
+  have := h.up_ok (.node 1 0 [.node 0 0 []]) C01Ex.sortedHead [] (.node 3 3 [.node 0 0 []]) True.intro rfl
+  revert this
+  show ¬ (denote (Congruence.ofEq C01Ex.partSem).toSem _ = denote (Congruence.ofEq C01Ex.partSem).toSem _)
+  decide +kernel
+
 end Dx
